@@ -248,6 +248,11 @@ def o_reject(sim, op, spec, out):
         if x is _MISSING or not M.foreign_unit(x, spec["unit"]):
             sim.count("precondition_lapsed")
             return
+    elif why == "unit_derived":
+        x = _get(sim, spec["x"])
+        if x is _MISSING or not M.foreign_unit_for_derived(x, spec["unit"]):
+            sim.count("precondition_lapsed")
+            return
     elif why == "catunit":
         if not M.foreign_cat_unit(spec["category"], spec["unit"]):
             sim.count("precondition_lapsed")
